@@ -91,29 +91,63 @@ def append_only_rule(repo, chk, fn, frame, oid, depth=0):
         node, why = v[0], v[1]
         owner = v[2] if len(v) > 2 else fn
         chk.bad(oid, 'R11', owner.site(node), ast.unparse(node)[:120], f'{fn.qualname} {why}: the step is no longer append-only (original columns / values / row order change)')
-    # rebinds: frame = pd.concat([frame, new], axis=1) (or a whitelisted column selection in compute_batch_ranking)
-    ok_rebinds = True
-    for s in rebinds:
-        v = s.value
-        good = isinstance(v, ast.Call) and m.dotted(v.func) == 'pandas.concat' and v.args and isinstance(v.args[0], (ast.List, ast.Tuple)) and len(v.args[0].elts) == 2 \
-            and isinstance(v.args[0].elts[0], ast.Name) and v.args[0].elts[0].id == frame and any(k.arg == 'axis' and isinstance(k.value, ast.Constant) and k.value.value == 1 for k in v.keywords)
-        if not good:
-            ok_rebinds = False
-            chk.bad(oid, 'R11', fn.site(s), ast.unparse(s)[:140], f'the frame is re-bound to something other than pd.concat([{frame}, <new columns>], axis=1): original columns, their values or the row order are not preserved')
-    rets = returns(fn)
-    ok_ret = bool(rets) and all(isinstance(r.value, ast.Name) and r.value.id == frame for r in rets)
-    if not ok_ret:
-        chk.bad(oid, 'R11', fn.site(rets[0]) if rets else fn.site(), ast.unparse(rets[0])[:100] if rets else 'return', f'{fn.qualname} must return the (extended) input frame')
-    # the new columns actually reach the result: a concat of the input with a frame built from the dict the constructor fills
-    dict_names = {n.targets[0].value.id for n in own_nodes(fn.node) if isinstance(n, ast.Assign) and isinstance(n.targets[0], ast.Subscript) and isinstance(n.targets[0].value, ast.Name)}
-    frames = {n.targets[0].id: n.value for n in own_nodes(fn.node) if isinstance(n, ast.Assign) and isinstance(n.targets[0], ast.Name) and isinstance(n.value, ast.Call) and m.dotted(n.value.func) == 'pandas.DataFrame' and n.value.args and isinstance(n.value.args[0], ast.Name) and n.value.args[0].id in dict_names}
-    reaches = any(isinstance(s.value, ast.Call) and m.dotted(s.value.func) == 'pandas.concat' and s.value.args and isinstance(s.value.args[0], (ast.List, ast.Tuple)) and len(s.value.args[0].elts) == 2 and isinstance(s.value.args[0].elts[1], ast.Name) and s.value.args[0].elts[1].id in frames for s in rebinds)
-    if depth == 0 and not reaches:
-        chk.bad(oid + '-new', 'R11', fn.site(), f'{frame} = pd.concat([{frame}, pd.DataFrame(<new columns>)], axis=1)', f'{fn.qualname} never appends the columns it constructs (no pd.concat of the input with the frame built from its new-column dict): the constructed features do not reach the ranked frame')
-    elif depth == 0:
-        chk.ok(oid + '-new', 'R11', fn.site(), f'{frame} = pd.concat([{frame}, pd.DataFrame(<new columns>)], axis=1)', 'the constructed columns are appended')
-    if not viol and ok_rebinds and ok_ret:
-        chk.ok(oid, 'R11', fn.site(), f'{fn.qualname}: {len(rebinds)} rebind(s) via pd.concat([{frame}, new], axis=1); no store into {frame}', 'append-only: input first, only new columns added', inspected=len(stmts))
+    # what is returned, on every path, written over the parameters: pd.concat([<input frame>, <frame of the new columns>], axis=1)
+    from ..match import run_paths
+    from ..terms import pattern, unify, walk_term
+    paths = run_paths(fn, None, None, max_forks=6)
+    F = ('name', frame)
+    good_pats = [pattern(m, f'pandas.concat([{frame}, NEW], axis=1)', ['NEW']), pattern(m, f'pandas.concat(({frame}, NEW), axis=1)', ['NEW']), pattern(m, f"pandas.concat([{frame}, NEW], axis='columns')", ['NEW']),
+                 pattern(m, f'{frame}.join(NEW)', ['NEW']), pattern(m, f'pandas.concat([{frame}, NEW], axis=1, copy=CP)', ['NEW', 'CP'])]
+    ok_all, any_new = True, False
+    if paths is None:
+        chk.unsure(oid, 'R11', fn.site(), 'return <extended frame>', 'too many undecidable tests to evaluate what the constructor returns')
+        ok_all = False
+        paths = []
+    seen_terms = set()
+    for assume, res in paths:
+        if res.raised is not None and res.returned is None:
+            continue
+        if res.unknown is not None or res.returned is None:
+            chk.unsure(oid, 'R11', fn.site(res.unknown) if res.unknown is not None else fn.site(), 'return <extended frame>', 'a statement outside the path vocabulary decides what the constructor returns')
+            ok_all = False
+            continue
+        rt = term_of(fn, res.returned, inline=False)
+        if rt in seen_terms:
+            continue
+        seen_terms.add(rt)
+        site = fn.site(res.returned) if hasattr(res.returned, 'lineno') else fn.site()
+        shown = ast.unparse(res.returned)[:140]
+        if rt == F:
+            continue        # nothing constructed on this path (e.g. no specification given): the input itself
+        b = None
+        for gp in good_pats:
+            b = unify(gp, rt)
+            if b is not None:
+                break
+        if b is not None:
+            new_t = b['NEW']
+            if any(x == F for x in walk_term(new_t)) and new_t[:2] != ('call', ('lib', 'pandas.DataFrame')):
+                chk.unsure(oid, 'R11', site, shown, 'the appended part is itself computed from the input frame in a way that is not recognised as a frame of new columns')
+                ok_all = False
+            else:
+                any_new = True
+            continue
+        ok_all = False
+        derived = any(x == F for x in walk_term(rt))
+        concat_like = any(isinstance(x, tuple) and x[:2] in (('call', ('lib', 'pandas.concat')),) for x in walk_term(rt))
+        if derived and (concat_like or rt[0] in ('sub', 'call')):
+            chk.bad(oid, 'R11', site, shown, f'the frame is re-bound to something other than pd.concat([{frame}, <new columns>], axis=1): original columns, their values or the row order are not preserved', soft=not concat_like)
+        elif not derived:
+            chk.bad(oid, 'R11', site, shown, f'{fn.qualname} must return the (extended) input frame', soft=True)
+        else:
+            chk.unsure(oid, 'R11', site, shown, 'the returned frame is derived from the input in a way outside the vocabulary of append-only constructions')
+    if depth == 0 and paths:
+        if any_new:
+            chk.ok(oid + '-new', 'R11', fn.site(), f'pd.concat([{frame}, <new columns>], axis=1)', 'the constructed columns are appended')
+        elif ok_all:
+            chk.bad(oid + '-new', 'R11', fn.site(), f'{frame} = pd.concat([{frame}, pd.DataFrame(<new columns>)], axis=1)', f'{fn.qualname} never appends the columns it constructs (no pd.concat of the input with the frame built from its new-column dict): the constructed features do not reach the ranked frame')
+    if not viol and ok_all:
+        chk.ok(oid, 'R11', fn.site(), f'{fn.qualname}: returns pd.concat([{frame}, new], axis=1) on every constructing path; no store into {frame}', 'append-only: input first, only new columns added', inspected=len(stmts))
 
 
 def _stores_into(fn, pname):
@@ -231,7 +265,7 @@ def one_value_per_row(repo, chk):
                                and ('split' in ast.unparse(n.value.elt) or 'zip(' in ast.unparse(n.value))}
                     it_src = lp.iter.args[0] if isinstance(lp.iter, ast.Call) and isinstance(lp.iter.func, ast.Name) and lp.iter.func.id == 'enumerate' and lp.iter.args else lp.iter
                     rows_ok = isinstance(it_src, ast.Name) and it_src.id in per_row
-                    chk.expect(rows_ok, 'C11.2b', 'R13', fn.site(lp), ast.unparse(lp.iter), 'the row loop ranges over all rows of the source column(s)', f'the row loop must range over every row of the source column; it ranges over {ast.unparse(lp.iter)}')
+                    chk.expect(rows_ok, 'C11.2b', 'R13', fn.site(lp), ast.unparse(lp.iter), 'the row loop ranges over all rows of the source column(s)', f'the row loop must range over every row of the source column; it ranges over {ast.unparse(lp.iter)}', soft=True)
                 elif isinstance(d.value, ast.ListComp):
                     n_lists += 1
                     g = d.value.generators[0]
@@ -256,7 +290,7 @@ def multiex_rule(repo, chk):
         srcdefs = [ast.unparse(n.value).replace('\n', '').replace(' ', '') for n in own_nodes(fn.node) if isinstance(n, ast.Assign) and isinstance(n.targets[0], ast.Name) and isinstance(src, ast.Name) and n.targets[0].id == src.id]
         ok_src = any(".replace(',','-')" in d and 'if' not in d for d in srcdefs) and any('tolist()' in d for d in srcdefs)
         ok_sets = ok_sets and ok_src
-    chk.expect(ok_sets, 'C11.3a', 'R15', fn.site(sets[0]) if sets else fn.site(), ast.unparse(sets[0]).replace('\n', ' ')[:140] if sets else 'multivalue_sets = [set(x.split("-")) ...]', 'each row value is split into its set of tokens', "each row's delimited value must be split into the set of its tokens (',' and '-' delimited)")
+    chk.expect(ok_sets, 'C11.3a', 'R15', fn.site(sets[0]) if sets else fn.site(), ast.unparse(sets[0]).replace('\n', ' ')[:140] if sets else 'multivalue_sets = [set(x.split("-")) ...]', 'each row value is split into its set of tokens', "each row's delimited value must be split into the set of its tokens (',' and '-' delimited)", soft=True)
     # membership test per row
     ifs = [n for n in own_nodes(fn.node) if isinstance(n, ast.If) and any(isinstance(c, ast.Call) and isinstance(c.func, ast.Attribute) and c.func.attr == 'append' for s in n.body for c in ast.walk(s))]
     ok_mem = False
@@ -282,13 +316,16 @@ def multiex_rule(repo, chk):
             names = [n for n in own_nodes(fn.node) if isinstance(n, ast.Assign) and isinstance(n.targets[0], ast.Subscript) and isinstance(n.targets[0].slice, ast.JoinedStr)]
             ok_mem = bool(names) and tok in ast.unparse(names[0].targets[0].slice)
     if not ifs:
-        chk.bad('C11.3b', 'R15', fn.site(), "'1' if token in token_set(row) else ''", "the indicator is not computed by token-set membership per row (e.g. substring matching such as str.contains marks rows whose tokens merely contain the token)")
+        chk.bad('C11.3b', 'R15', fn.site(), "'1' if token in token_set(row) else ''", "the indicator is not computed by token-set membership per row (e.g. substring matching such as str.contains marks rows whose tokens merely contain the token)", soft=True)
     else:
-        chk.expect(ok_mem, 'C11.3b', 'R15', fn.site(ifs[0]), ast.unparse(ifs[0].test), "'1' exactly on rows whose token set contains the token, '' otherwise", "the indicator must be '1' iff the token is a member of the row's token set (not a substring test), '' otherwise")
+        chk.expect(ok_mem, 'C11.3b', 'R15', fn.site(ifs[0]), ast.unparse(ifs[0].test), "'1' exactly on rows whose token set contains the token, '' otherwise", "the indicator must be '1' iff the token is a member of the row's token set (not a substring test), '' otherwise", soft=True)
+    # a substring test on the raw delimited value is never token membership ('a' is in 'ab-c' but is not one of its tokens)
+    for c in calls(fn, attr=('contains', 'find', 'count', 'startswith', 'endswith', 'match', 'search')):
+        chk.bad('C11.3b', 'R15', fn.site(c), ast.unparse(c)[:120], "the indicator is computed by substring matching on the delimited value (e.g. str.contains): rows whose tokens merely contain the token as a substring are marked '1'; it must be membership in the row's token set")
     # missing symbols removed
     rm = [c for c in calls(fn, attr=('remove', 'discard', 'difference_update')) if isinstance(c.func.value, ast.Name)]
     ok_rm = any('missing' in ast.unparse(c.args[0]) for c in rm if c.args)
-    chk.expect(ok_rm, 'C11.3c', 'R13', fn.site(rm[0]) if rm else fn.site(), ast.unparse(rm[0]) if rm else 'unique_values.remove(missing_symbol)', 'missing-value symbols do not become indicator columns', 'missing-value symbols must be removed from the token universe')
+    chk.expect(ok_rm, 'C11.3c', 'R13', fn.site(rm[0]) if rm else fn.site(), ast.unparse(rm[0]) if rm else 'unique_values.remove(missing_symbol)', 'missing-value symbols do not become indicator columns', 'missing-value symbols must be removed from the token universe', soft=True)
 
 
 def subfeature_rules(repo, chk):
@@ -304,7 +341,7 @@ def subfeature_rules(repo, chk):
         if len(za) == 2 and isinstance(g0.target, ast.Tuple) and len(g0.target.elts) == 2 and isinstance(lc0.elt, ast.Tuple) and [ast.unparse(e) for e in lc0.elt.elts] == [ast.unparse(e) for e in g0.target.elts] and not g0.ifs:
             srcs = [term_of(fn, a, inline=True) for a in za]
             ok_t = all("tolist" in show(t) for t in srcs) and srcs[0] != srcs[1]
-    chk.expect(ok_t, 'C11.4a', 'R15', fn.site(tmpl[0]) if tmpl else fn.site(), ast.unparse(tmpl[0])[:120] if tmpl else '', 'one (first, second) pair per row, in row order', 'the row template must pair the two source columns row by row')
+    chk.expect(ok_t, 'C11.4a', 'R15', fn.site(tmpl[0]) if tmpl else fn.site(), ast.unparse(tmpl[0])[:120] if tmpl else '', 'one (first, second) pair per row, in row order', 'the row template must pair the two source columns row by row', soft=True)
     T = tmpl[0].targets[0].id if tmpl else 'out_template_feature'
     # one-sided
     one = [n for n in own_nodes(fn.node) if isinstance(n, ast.Assign) and isinstance(n.value, ast.ListComp) and isinstance(n.value.elt, ast.IfExp)]
@@ -317,7 +354,7 @@ def subfeature_rules(repo, chk):
         ok_one = x is not None and valvar is not None and ast.unparse(lc.generators[0].iter) == T and ast.unparse(lc.elt.body).replace('\n', '').replace(' ', '') == f"'AND'.join({x})" and ast.unparse(test) == f'{x}[1] == {valvar}' \
             and isinstance(lc.elt.orelse, ast.Constant) and lc.elt.orelse.value == ''
     chk.expect(ok_one, 'C11.4b', 'R15', fn.site(one[0]) if one else fn.site(), ast.unparse(one[0]).replace('\n', ' ')[:160] if one else '', "one-sided: joined source value iff the selector column has the value, '' otherwise",
-               "the one-sided sub-feature must be 'AND'.join(pair) exactly on rows where pair[1] == value and '' elsewhere")
+               "the one-sided sub-feature must be 'AND'.join(pair) exactly on rows where pair[1] == value and '' elsewhere", soft=True)
     # two-sided
     two = [n for n in own_nodes(fn.node) if isinstance(n, ast.If) and isinstance(n.test, ast.BoolOp) and any(isinstance(c, ast.Call) and isinstance(c.func, ast.Attribute) and c.func.attr == 'append' for s in n.body for c in ast.walk(s))]
     ok_two = False
@@ -335,7 +372,7 @@ def subfeature_rules(repo, chk):
         lp = par.get(two[0])
         ok_two = t == want and a1 in (['str(1)'], ["'1'"]) and a0 in (['str(0)'], ["'0'"]) and isinstance(lp, ast.For) and ast.unparse(lp.iter) == T
     chk.expect(ok_two, 'C11.4c', 'R15', fn.site(two[0]) if two else fn.site(), ast.unparse(two[0].test).replace('\n', ' ') if two else '', "two-sided: '1' iff both components equal the mask pair, else '0'",
-               "the two-sided sub-feature must be the indicator of (first == mask[0] and second == mask[1])")
+               "the two-sided sub-feature must be the indicator of (first == mask[0] and second == mask[1])", soft=True)
     # masks: all value pairs
     masks = [n for n in own_nodes(fn.node) if isinstance(n, ast.Call) and isinstance(n.func, ast.Attribute) and n.func.attr == 'append' and isinstance(n.args[0], ast.Tuple) and len(n.args[0].elts) == 2 and 'unique' in ast.unparse(n.args[0])]
     ok_masks = False
@@ -348,7 +385,7 @@ def subfeature_rules(repo, chk):
             first_src = term_of(fn, l_in.iter, inline=True)
             second_src = term_of(fn, l_out.iter, inline=True)
             ok_masks = e0 == l_in.target.id and e1 == l_out.target.id and 'unique' in show(first_src) and 'unique' in show(second_src) and first_src != second_src
-    chk.expect(ok_masks, 'C11.4d', 'R15', fn.site(masks[0]) if masks else fn.site(), ast.unparse(masks[0]) if masks else '', 'one indicator per (first value, second value) pair', 'mask pairs must be (value of the first feature, value of the second feature)')
+    chk.expect(ok_masks, 'C11.4d', 'R15', fn.site(masks[0]) if masks else fn.site(), ast.unparse(masks[0]) if masks else '', 'one indicator per (first value, second value) pair', 'mask pairs must be (value of the first feature, value of the second feature)', soft=True)
 
 
 def target_control(repo, chk):
@@ -366,4 +403,4 @@ def target_control(repo, chk):
             txt = ast.unparse(n.value)
             if f'{frame}.shape[0]' not in txt and f'{frame}.iterrows()' not in txt and f'len({frame})' not in txt:
                 bad.append(n)
-    chk.expect(not bad and sized >= 9, 'C11.5b', 'R13', fn.site(bad[0]) if bad else fn.site(), ast.unparse(bad[0])[:100] if bad else f'{sized} control columns sized by {frame}.shape[0]', 'every control column has one value per row', 'a control column is not sized by the number of rows of the frame')
+    chk.expect(not bad and sized >= 9, 'C11.5b', 'R13', fn.site(bad[0]) if bad else fn.site(), ast.unparse(bad[0])[:100] if bad else f'{sized} control columns sized by {frame}.shape[0]', 'every control column has one value per row', 'a control column is not sized by the number of rows of the frame', soft=True)
